@@ -42,7 +42,7 @@ CHECKS = {
             "Trusted: kernel contract stub, KMI, refDecide, engine (unsafe.Pointer/uintptr provenance model), solvers. Native replay runs seccomp_linux.go with its syscall selectors mechanically rewritten to the stub.",
             "SMT-based translation validation at the syscall boundary (go/ssa symbolic execution with a kernel-contract stub, z3 + cvc5)"),
     "C09": (MC, "4 (C09)",
-            "Every (r1, errno) the kernel may return from prctl and seccomp is a symbolic variable; on every path of the real LoadFilter SMT decides result == nil <=> attached, failure before the kernel => empty call trace, prctl failure => no seccomp call; Supported() issues exactly one seccomp(SET_MODE_STRICT, flags != 0, NULL) and returns true iff EINVAL. Histories of loads on other threads are represented by the kernel answer they provoke (positive r1), not replayed as histories.",
+            "Every (r1, errno) the kernel may return from prctl and seccomp is a symbolic variable; on every path of the real LoadFilter SMT decides result == nil <=> attached, failure before the kernel => empty call trace, prctl failure => no seccomp call; Supported() issues exactly one seccomp(SET_MODE_STRICT, flags != 0, NULL) and returns true iff EINVAL. Histories of loads on other threads are represented by the kernel answer they provoke (positive r1), not replayed as histories. Histories: three (thorough nine) instances run an earlier SetNoNewPrivs / LoadFilter / Supported call in the same process first (own arguments and kernel answers; kernel ghost state carried over) and check the obligations of the second call.",
             "Trusted: the seccomp(2)/prctl(2) contract as encoded in the stub (~100 lines); whether the kernel honours it is outside.",
             "SMT-based symbolic execution of the loader over all kernel answers (z3 + cvc5)"),
     "C10": (MC, "4 (C10)",
@@ -50,7 +50,7 @@ CHECKS = {
             "Assumes the kernel applies a TSYNC filter atomically to all threads when it returns 0. Trusted: kernel contract stub, engine, solvers.",
             "SMT-based symbolic execution of the loader with a symbolic flag word (z3 + cvc5); schedules discharged by assumption on the kernel"),
     "C11": (MC, "4 (C11)",
-            "Scheduling model: the OS thread of each syscall is an arbitrary symbolic value unless the goroutine has been locked to its thread since the previous syscall. On the call trace of the real LoadFilter SMT decides: NoNewPrivs => exactly one prctl(38,1,0,0,0), strictly before seccomp, on the same thread for every thread assignment; not requested => no prctl; unprivileged caller without the bit => error.",
+            "Scheduling model: the OS thread of each syscall is an arbitrary symbolic value unless the goroutine has been locked to its thread since the previous syscall. On the call trace of the real LoadFilter SMT decides: NoNewPrivs => exactly one prctl(38,1,0,0,0), strictly before seccomp, on the same thread for every thread assignment; not requested => no prctl; unprivileged caller without the bit => error. The obligations are per call: instances with a history (an earlier SetNoNewPrivs / LoadFilter / Supported in the same process, possibly on another thread) decide that a request for the bit is honoured on the installing thread whatever happened before.",
             "The Go scheduler is represented by its only observable effect here (which thread runs each syscall); runtime.LockOSThread is modelled as pinning. Trusted: stub incl. per-thread no_new_privs ghost bit, engine, solvers.",
             "SMT-based symbolic execution of the loader over a symbolic thread-assignment model (z3 + cvc5)"),
     "C12": (MC, "4 (C12)",
@@ -62,7 +62,7 @@ CHECKS = {
             "Trusted: the engine's write monitor and map-order model; the DRF reduction (Go memory model). Native replay runs the compilations concurrently under the race detector.",
             "SMT-based symbolic execution with map order as an input plus a write-set (non-interference) analysis (z3 + cvc5)"),
     "C14": (MC, "4 (C14)",
-            "Parsers/printers: the real Action.Unpack, Operation.Unpack, String and MarshalText are executed symbolically on an arbitrary string (equality atom; case through an uninterpreted lower()) under both iteration orders of the name map; SMT decides 'Unpack succeeds with a iff lower(s) is a's documented name' for ALL strings (so no unknown spelling maps to any action, in particular not to allow), round trips for all named values, and that unknown values print no documented name. Text forms: only key agreement is decided - config, yaml and json tag of every exported field of the four policy structs (read from go/types of the current source) must coincide; a disagreement is confirmed by a native marshal/load round trip.",
+            "Parsers/printers: the real Action.Unpack, Operation.Unpack, String and MarshalText are executed symbolically on an arbitrary string (equality atom; case through an uninterpreted lower()) under both iteration orders of the name map; SMT decides 'Unpack succeeds with a iff lower(s) is a's documented name' for ALL strings (so no unknown spelling maps to any action, in particular not to allow), round trips for all named values, and that unknown values print no documented name. Text forms: only key agreement is decided - config, yaml and json tag of every exported field of the four policy structs (read from go/types of the current source) must coincide; a disagreement is confirmed by a native marshal/load round trip. Both parsers are additionally run on byte-vector strings (every length up to 14 / 16 seven-bit ASCII characters), which decides code that inspects length, prefixes or single characters - bounded, unlike the atom encoding.",
             "NOT decided: the behaviour of go-ucfg, yaml.v2, encoding/json (reflection): quoting, defaults, numeric fidelity of 64-bit operands (JSON path rounds above 2^53 - observed, outside the claim). Assumes the libraries' tag contract.",
             "SMT-based symbolic execution of the parsers over all strings (equality atoms + uninterpreted lower(), z3 + cvc5); struct-tag agreement from go/types"),
     "C19": (MC, "4 (C19)",
@@ -74,11 +74,11 @@ CHECKS = {
             "Stubs for flag, go-ucfg, exec, os.Exit (contract: fail or deliver). That the filter survives execve and what the target observes is kernel behaviour, outside.",
             "symbolic execution of the real main() over all environment-failure combinations (go/ssa engine; z3 + cvc5 for path feasibility)"),
     "C16": (MC, "4 (C16)",
-            "The real Parse/parseX86_64 run over L <= 2/3 symbolic lines delivered by a model scanner that may stop anywhere with or without an error. A line is an SMT string constrained only by regular-language memberships derived from the literals the current source uses; z3 5.1 decides each path's feasibility and obligations for ALL line contents: no panic, read failure => error and no partial result, findSyscallNum is only given lines of the current function, every reported syscall is in the table under its name, appended lines never remove earlier results.",
+            "The real Parse/parseX86_64 run over L <= 2/3 symbolic lines delivered by a model scanner that may stop anywhere with or without an error. A line is an SMT string constrained only by regular-language memberships derived from the literals the current source uses; z3 5.1 decides each path's feasibility and obligations for ALL line contents: no panic, read failure => error and no partial result, findSyscallNum is only given lines of the current function, every reported syscall is in the table under its name, appended lines never remove earlier results. The scanner model stops with no error, an arbitrary error, or bufio.ErrTooLong (Scanner.Buffer moves the limit, it does not remove it).",
             "findSyscallNum (regexp + ParseInt) is summarised as 'arbitrary number or error'; alphabet = printable ASCII + space + tab; L bounded (no induction over the number of lines). String obligations are decided by z3 5.1.0 alone (no cross-check).",
             "SMT string/regular-language solving over symbolic lines with the real parser executed from go/ssa (z3 5.1)"),
     "C17": (MC, "4 (C17)",
-            "The real doObjdump is executed twice over a model file system whose file contents are SMT strings. Run 1 may crash at any stub call (every file open for writing keeps a symbolic-length prefix of what was written) or its disassembler may fail after a prefix; run 2 is uninterrupted, for the same or another binary. z3 decides for all hashes, disassembly texts and crash prefixes: whenever run 2 returns a path, the file there is hash + newline + the complete disassembly; otherwise it returned an error. 'Same profile as a cold cache' follows because the profile is a function of that file.",
+            "The real doObjdump is executed twice over a model file system whose file contents are SMT strings. Run 1 may crash at any stub call (every file open for writing keeps a symbolic-length prefix of what was written) or its disassembler may fail after a prefix; run 2 is uninterrupted, for the same or another binary. z3 decides for all hashes, disassembly texts and crash prefixes: whenever run 2 returns a path, the file there is hash + newline + the complete disassembly; otherwise it returned an error. 'Same profile as a cold cache' follows because the profile is a function of that file. Disassembler failures are an *exec.ExitError with any exit code (-1: killed by a signal) or another error. The cache key is covered by a lemma on the real hashBinary (model hash, failing open/read): without an error it returns the digest of the whole binary or nothing of 64 characters; the two-run instances cover any 64-hex-digit key and the empty key in either run.",
             "Crash model: a process crash leaves a prefix of the sequentially written data, rename is atomic; no power-loss/fsync reasoning, no concurrent runs. File system, bufio.Writer and exec are harness models (~200 lines). String queries are decided by z3 4.8.12 / 5.1.0 (first definite answer, no independent cross-check).",
             "SMT string solving (concatenation/prefix/length classes) over a two-run history of the real cache code with symbolic crash points (z3)"),
     "C18": (MC, "4 (C18)",
